@@ -82,6 +82,15 @@ pub fn ser_lines(rng: &mut Rng, idx: u64, maxvars: usize, maxops: usize) -> Vec<
             if raw.is_empty() {
                 raw.push(vec![(0, rng.coin())]);
             }
+            // one text in five uses variable numbers with two digits (9 … 14: numbers ending in the
+            // digit 0 included), the lower numbers staying unused
+            if rng.chance(1, 5) {
+                for c in raw.iter_mut() {
+                    for l in c.iter_mut() {
+                        l.0 += 8;
+                    }
+                }
+            }
             let nv = std::cmp::max(1, raw.iter().flat_map(|c| c.iter().map(|(v, _)| v + 1)).max().unwrap_or(0));
             let mut text = String::new();
             if rng.coin() {
